@@ -17,5 +17,5 @@ if v.get("federation"):
 out.append("skip_mod_tidy: true")
 out.append("skip_validation: true")
 out.append(v.get("extra", "").rstrip("\n"))
-out.append(open(f"/verif/probes/{probe}/models.yml").read().replace("@V@", name))
+out.append(open(f"/verif/probes/{probe}/" + v.get("models", "models.yml")).read().replace("@V@", name))
 print("\n".join(x for x in out if x))
